@@ -99,36 +99,36 @@ type frame struct {
 }
 
 type FCtx struct {
-	E        *Engine
-	U        *Universe
-	FI       *FuncInfo
-	C        *FuncContract
-	Prop     string
-	Obls     []*Obligation
-	entry    *State
-	frames   []*frame
-	counters map[string]int
-	dropped  []string
-	assumed  map[string]bool
-	inlined  map[string]bool
-	notes    []string
-	guards   []string
-	noOverflow bool
-	mayPanic   bool
-	loopOrd    int
-	retOrd     map[token.Pos]int
-	paramObs   []ObsVar
-	specDecl   map[string]bool
-	ghostOld   map[string]Val
-	fpMode     bool
-	inlineStack []string
-	termination []string
-	pureFacts   []string
-	ctxSuffixOf map[string]string
-	cacheParent map[string]string
-	cacheN      int
-	recoverLit  *ast.FuncLit
-	inRecover   bool
+	E            *Engine
+	U            *Universe
+	FI           *FuncInfo
+	C            *FuncContract
+	Prop         string
+	Obls         []*Obligation
+	entry        *State
+	frames       []*frame
+	counters     map[string]int
+	dropped      []string
+	assumed      map[string]bool
+	inlined      map[string]bool
+	notes        []string
+	guards       []string
+	noOverflow   bool
+	mayPanic     bool
+	loopOrd      int
+	retOrd       map[token.Pos]int
+	paramObs     []ObsVar
+	specDecl     map[string]bool
+	ghostOld     map[string]Val
+	fpMode       bool
+	inlineStack  []string
+	termination  []string
+	pureFacts    []string
+	ctxSuffixOf  map[string]string
+	cacheParent  map[string]string
+	cacheN       int
+	recoverLit   *ast.FuncLit
+	inRecover    bool
 	implicitRecv map[ast.Expr]*types.Selection
 	curGhostSet  map[string]bool
 }
